@@ -314,6 +314,28 @@ func c09Run(s *Shard) {
 		chains = append(chains, []M{concB}, []M{core[2], concB}, []M{fatB}, []M{concB, fatB})
 	}
 	chains = append(chains, []M{bias("criteriaOmission", M{"ratio": 0.67, "max": 1})}, []M{core[2], bias("criteriaOmission", M{"ratio": 1.0, "max": 1, "min": 1})}, []M{bias("criteriaOmission", M{"ratio": 0.34, "min": 2})})
+	// the same pair of criteria mixed again (the second mixed criterion needs a fresh id; what the report names must be
+	// what the next stage received), different ratios so that the two mixed criteria differ
+	for sd := 0; sd < 6; sd++ {
+		mixA := bias("criteriaMixing", refStrategy(M{"randomSeed": sd, "mixingRatio": 0.5}, 0))
+		mixB := bias("criteriaMixing", refStrategy(M{"randomSeed": sd, "mixingRatio": 0.25}, 0))
+		chains = append(chains, []M{mixA, mixB}, []M{mixA, mixB, core[1]})
+	}
+	chains = append(chains, []M{bias("criteriaMixing", refStrategy(M{"randomSeed": 0, "mixingRatio": 0.5}, 0)), bias("criteriaMixing", refStrategy(M{"randomSeed": 1, "mixingRatio": 0.25}, 0))})
+	// bounding options one at a time and together, scaling exactly 1 (the allowed range IS the criterion's range), followed by a
+	// stage that reads the ranges; run on the declared-range roots below as well
+	var boundChains [][]M
+	for b := 1; b <= 5; b++ {
+		fat := bias("fatigue", withBounding(M{"function": "const", "params": M{"value": 0.5}, "randomSeed": 4}, b))
+		conc := bias("criteriaConcealment", withBounding(M{"randomSeed": 4, "newCriterionScaling": 2.0}, b))
+		anc := anchoringBias(0, false, false)
+		ap := asM(asM(asM(anc["props"])["applier"])["params"])
+		for k, v := range withBounding(M{}, b) {
+			ap[k] = v
+		}
+		boundChains = append(boundChains, []M{fat}, []M{fat, core[1]}, []M{conc, core[1]}, []M{anc, core[1]}, []M{fat, conc})
+	}
+	chains = append(chains, boundChains...)
 	type rootSpec struct {
 		m   string
 		sub bool
@@ -348,6 +370,28 @@ func c09Run(s *Shard) {
 				s.Evals++
 				s.Begin(c)
 				s.Report(c09Reports(c))
+			}
+			// criteria that declare a range reaching below zero: the stages work with the request's own range objects
+			if rs.mp == nil {
+				decl := asM(deepCopy(root))
+				for _, cr := range asL(decl["criteria"]) {
+					asM(cr)["valuesRange"] = M{"min": -10.0, "max": 10.0}
+				}
+				for _, ch := range boundChains {
+					if !s.Take() {
+						continue
+					}
+					for _, ex := range []bool{false, true} {
+						ci := &Case{Prop: "C09", Kind: "input", Req: withBiases(decl, ch), Params: M{"exact_capacity": ex, "name": "declared-range-below-zero"}}
+						s.Evals++
+						s.Begin(ci)
+						s.Report(c09Input(ci))
+					}
+					c := &Case{Prop: "C09", Kind: "reports", Req: withBiases(decl, ch)}
+					s.Evals++
+					s.Begin(c)
+					s.Report(c09Reports(c))
+				}
 			}
 		}
 	}
